@@ -287,6 +287,80 @@ func finalMembership(ih []byte, fam4 bool) (map[string]bool, map[string]bool) {
 
 // ---- (b) concurrent datagrams through one frontend --------------------------------------------
 
+// contendedBatch: on one store, many micro-rounds in which K goroutines leave a spin barrier together and
+// hit the *same* peer of a fresh swarm with state-changing operations (the retransmitted stop, the stop
+// racing a completed, ...). Linearizability is judged per micro-round; the counters are read at the end.
+func contendedBatch(c *Ctx, r *Rng, kind string, round, micro int) {
+	n := []int{1, 2, 1024}[r.Intn(3)]
+	storeOp(c, "st.reset", map[string]string{"n": strconv.Itoa(n), "kind": kind, "instances": "1"})
+	storeOp(c, "st.clock", map[string]string{"t": strconv.FormatInt(int64(1700000000e9)+int64(round)*1e9, 10)})
+	menus := [][]string{
+		{"st.del_leecher", "st.del_leecher", "st.del_leecher", "st.del_leecher"},
+		{"st.del_seeder", "st.del_seeder", "st.del_seeder", "st.del_seeder"},
+		{"st.del_leecher", "st.graduate", "st.del_leecher", "st.put_seeder"},
+		{"st.put_leecher", "st.put_leecher", "st.put_seeder", "st.graduate"},
+		{"st.graduate", "st.graduate", "st.del_seeder", "st.del_leecher"},
+		{"st.put_seeder", "st.del_seeder", "st.put_leecher", "st.del_leecher"},
+	}
+	for m := 0; m < micro; m++ {
+		ihb := r.Bytes(20)
+		ih := hx(ihb)
+		pkb := append(append(r.Bytes(20), 0x1a, 0xe1), 10, 0, 0, byte(1+r.Intn(3)))
+		pk := hx(pkb)
+		init := &miniSwarm{s: map[string]bool{}, l: map[string]bool{}}
+		menu := menus[r.Intn(len(menus))]
+		pre := "st.put_leecher"
+		if menu[0] == "st.del_seeder" || r.Intn(4) == 0 {
+			pre = "st.put_seeder"
+		}
+		if r.Intn(8) != 0 {
+			o := &cop{op: pre, args: map[string]string{"ih": ih, "pk": pk, "inst": "0"}}
+			storeOp(c, o.op, o.args)
+			init.apply(o)
+		}
+		K := len(menu)
+		ops := make([]*cop, K)
+		for t := 0; t < K; t++ {
+			ops[t] = &cop{thread: t, op: menu[t], args: map[string]string{"ih": ih, "pk": pk, "inst": "0"}}
+		}
+		var tick int64
+		var ready int32
+		var wg sync.WaitGroup
+		rec := &recCtx{}
+		for t := 0; t < K; t++ {
+			wg.Add(1)
+			go func(o *cop) {
+				defer wg.Done()
+				atomic.AddInt32(&ready, 1)
+				for atomic.LoadInt32(&ready) < int32(K) {
+				}
+				o.start = atomic.AddInt64(&tick, 1)
+				o.line, o.obs = rec.run(o.op, o.args)
+				o.end = atomic.AddInt64(&tick, 1)
+			}(ops[t])
+		}
+		wg.Wait()
+		finalS, finalL := finalMembership(ihb, true)
+		order := linearize(ops, init, finalS, finalL)
+		if order == nil {
+			sort.Slice(ops, func(i, j int) bool { return ops[i].start < ops[j].start })
+			for _, o := range ops {
+				c.Emit(o.line+" thread="+strconv.Itoa(o.thread), o.obs+" NOT-LINEARIZABLE")
+			}
+			c.Kind("contended-not-linearizable")
+		} else {
+			for _, o := range order {
+				c.Emit(o.line+" thread="+strconv.Itoa(o.thread), o.obs)
+			}
+			c.Kind("contended-linearized-" + strings.Join([]string{menu[0][3:], menu[1][3:]}, "+"))
+		}
+		if m%10 == 9 || m == micro-1 {
+			storeOp(c, "st.totals", map[string]string{"inst": "0"})
+		}
+	}
+	storeOp(c, "st.dump", map[string]string{})
+}
+
 func runC04(c *Ctx) {
 	for _, l := range c.CorpusLines() {
 		op, a := parseOp(l)
@@ -300,6 +374,13 @@ func runC04(c *Ctx) {
 			kind = "redis"
 		}
 		concurrentStoreRound(c, r, kind, i)
+	}
+	for i := 0; i < c.N/400+1; i++ {
+		kind := "memory"
+		if i%5 == 4 {
+			kind = "redis"
+		}
+		contendedBatch(c, r, kind, i, 40)
 	}
 	concurrentUDP(c, r, 8, c.N/40+10)
 }
